@@ -135,6 +135,15 @@ def classify(case):
             new_t = sc.marks[st["mark"]["type"]]
             if nd is not None and sum(1 for m in nd.marks if m.type != new_t and new_t.excludes(m.type)) >= 2:
                 return "C04-node-mark-displaces-several"
+        if st["type"] == "RemoveNodeMarkStep":
+            # known upstream semantics: a mark type that does not exclude itself may occur several times on a node,
+            # in insertion order; removing one that is not the LAST of its type and adding it back puts it last
+            nd = cur.node_at(st["pos"])
+            mk = sc.mark_from_json(st["mark"])
+            if nd is not None and not mk.type.excludes(mk.type):
+                same = [m for m in nd.marks if m.type == mk.type]
+                if len(same) >= 2 and any(m.eq(mk) for m in same[:-1]) and not same[-1].eq(mk):
+                    return "C04-node-mark-same-type-order"
         try:
             res = S.step_from_desc(sc, st).apply(cur)
         except Exception:  # noqa: BLE001
